@@ -57,7 +57,7 @@ try:
         for c in checks:
             t0 = time.time()
             cenv = dict(os.environ, VERIF_REPO=wt)
-            cr = subprocess.run(['/verif/check', c, '--tier', args.tier], cwd='/verif', env=cenv, capture_output=True, text=True, timeout=7200)
+            cr = subprocess.run([os.environ.get('VERIF_CHECK', '/verif/check'), c, '--tier', args.tier], cwd=os.path.dirname(os.environ.get('VERIF_CHECK', '/verif/check')), env=cenv, capture_output=True, text=True, timeout=7200)
             keys = [l.strip() for l in cr.stdout.splitlines() if l.strip().startswith('key=')]
             result['checks'][c] = {'exit': cr.returncode, 'keys': [k[:160] for k in keys[:4]], 'wall_s': round(time.time() - t0, 1)}
             if cr.returncode == 2:
